@@ -100,6 +100,12 @@ func (i *iterT) Next() interface{} {
 	return v
 }
 
+// Emb embeds *S: S's fields (F, N, P, ...) and methods (Hello, Add, ...) are promoted.
+type Emb struct {
+	*S
+	Tag string
+}
+
 func newS() S {
 	return S{F: "eff", N: 7, Fn: func(a int) int { return a + 1 }, L: []int{4, 5}, M: map[string]int{"k": 1}, Any: "any", hidden: 1}
 }
@@ -199,6 +205,10 @@ var pool = []*pv{
 	{Name: "pmsi", Kind: "ptr", Mk: func() interface{} { return &map[string]int{"a": 1} }},
 	// structs, pointers
 	{Name: "sval", Kind: "struct", Mk: func() interface{} { return newS() }},
+	// structs that EMBED a pointer: fields and methods are promoted through it, also when it is nil
+	{Name: "embnil", Kind: "struct", Odd: true, Mk: func() interface{} { return Emb{Tag: "t"} }},
+	{Name: "pembnil", Kind: "ptr", Odd: true, Mk: func() interface{} { return &Emb{Tag: "t"} }},
+	{Name: "emb", Kind: "struct", Mk: func() interface{} { s := newS(); return Emb{S: &s, Tag: "t"} }},
 	{Name: "szero", Kind: "struct", Mk: func() interface{} { return S{} }},
 	{Name: "pS", Kind: "ptr", Mk: func() interface{} { s := newS(); s.P = &S{F: "inner"}; return &s }},
 	{Name: "ppS", Kind: "ptr", Mk: func() interface{} { s := newS(); p := &s; return &p }},
